@@ -358,7 +358,7 @@ pub fn run(cfg: &Cfg) -> Report {
 
     // 1. seeded random programs, all 22 kinds round-robin
     // C14 serialises every observation into six sinks (the Sdt sink is quadratic): fewer programs there
-    let n_random = cfg.scaled(if thorough { if cfg.prop == "C14" { 200_000 } else { 660_000 } } else { 44_000 });
+    let n_random = cfg.scaled(if thorough { if cfg.prop == "C14" { 200_000 } else { 660_000 } } else { 110_000 });
     let max_ops = if thorough { 120 } else { 40 };
     let kinds: Vec<Kind> = match cfg.prop.as_str() {
         "C03" => ALL_KINDS.iter().copied().filter(|k| k.has_body()).collect(),
@@ -374,6 +374,48 @@ pub fn run(cfg: &Cfg) -> Report {
         run_prog(cx, &p, 1);
     }));
 
+    // 1b. layout programs: every pub field of the FADT / FACS carrying a distinguishing value
+    //     (unique, asymmetric, non-zero bytes), so a swap, wrong width or wrong offset cannot cancel
+    if matches!(cfg.prop.as_str(), "C01" | "C02" | "C04" | "C14") {
+        rep.merge(par_cases(cfg, "tables.layout", cfg.scaled(if thorough { 20_000 } else { 400 }), |cx| {
+            let mut r = cx.rng.clone();
+            let fadt = cx.idx % 2 == 0;
+            let mut ops: Vec<Op> = Vec::new();
+            if fadt {
+                let mut idx: Vec<usize> = (0..crate::tables::reference::FADT_FIELDS.len()).collect();
+                for i in (1..idx.len()).rev() {
+                    let j = r.usize_below(i + 1);
+                    idx.swap(i, j);
+                }
+                let all = cx.idx % 4 == 0;
+                for i in idx {
+                    if all || r.bool() {
+                        let (_, w, _) = crate::tables::reference::FADT_FIELDS[i];
+                        let v = if cx.idx % 8 < 4 { crate::prng::distinguishing(i as u32, if w == 12 { 64 } else { 8 * w as u32 }) } else { r.biased(if w == 12 { 64 } else { 8 * w as u32 }) };
+                        ops.push(Op::Fadt { call: 9, a: i as u64, b: v, c: 0 });
+                    }
+                }
+                cx.rep.cov("layout:fadt_pub_fields");
+            } else {
+                for i in 0..7u8 {
+                    if cx.idx % 4 == 1 || r.bool() {
+                        let (_, w, _) = crate::tables::reference::FACS_FIELDS[i as usize];
+                        let v = if cx.idx % 8 < 4 { crate::prng::distinguishing(i as u32 + 60, 8 * w as u32) } else { r.biased(8 * w as u32) };
+                        ops.push(Op::FacsSet { idx: i, v });
+                    }
+                }
+                cx.rep.cov("layout:facs_pub_fields");
+            }
+            let p = Prog { kind: if fadt { Kind::Fadt } else { Kind::Facs }, hdr: gen_hdr(&mut r), ctor: Ctor::None, ops };
+            run_prog(cx, &p, 1);
+        }));
+    }
+    if cfg.prop == "C02" {
+        rep.merge(len_helpers(cfg));
+    }
+    if cfg.prop == "C04" {
+        rep.merge(value_layouts(cfg));
+    }
     if cfg.mini {
         return rep; // the long sweeps are not part of the miniature (Miri) workload
     }
@@ -418,4 +460,130 @@ pub fn run(cfg: &Cfg) -> Report {
 
 fn thorough_or_scaled(cfg: &Cfg) -> bool {
     cfg.tier == Tier::Thorough
+}
+
+
+/// C02 companion: every public `len()` helper agrees with the number of bytes the object
+/// serialises to (a helper disagreeing with its serialiser is how Length fields go wrong).
+fn len_helpers(cfg: &Cfg) -> Report {
+    use acpi_tables::{facs::FACS, fadt::FADT, gas::GAS, madt, pptt, rqsc, rsdp::Rsdp, tpm2};
+    par_cases(cfg, "len.helpers", cfg.scaled(2_000), |cx| {
+        let mut r = cx.rng.clone();
+        cx.eval();
+        let check = |cx: &mut CaseCtx, what: &str, helper: usize, bytes: usize| {
+            cx.obs();
+            cx.rep.cov(&format!("len_helper:{}", what));
+            if helper != bytes {
+                cx.violation(format!("{}::len() says {} but the object serialises to {} bytes", what, helper, bytes), J::Null);
+            }
+        };
+        let h = gen_hdr(&mut r);
+        check(cx, "FACS", FACS::len(), to_vec(&FACS::new()).len());
+        check(cx, "FADT", FADT::len(), to_vec(&acpi_tables::fadt::FADTBuilder::new(h.oem_id, h.oem_table_id, h.oem_rev).finalize()).len());
+        check(cx, "GAS", GAS::len(), to_vec(&crate::tables::real::mk_gas(&gen_gas(&mut r))).len());
+        check(cx, "Rsdp", Rsdp::len(), to_vec(&Rsdp::new(h.oem_id, r.u64b())).len());
+        check(cx, "TpmServer1_2", tpm2::TpmServer1_2::len(), to_vec(&tpm2::TpmServer1_2::new(h.oem_id, h.oem_table_id, h.oem_rev)).len());
+        check(cx, "RINTC", madt::RINTC::len(), to_vec(&madt::RINTC::new(madt::HartStatus::Enabled, r.u64b(), 1, 2, 3, 4)).len());
+        check(cx, "IMSIC", madt::IMSIC::len(), to_vec(&madt::IMSIC::new(1, 2, 3, 4, 5, 6)).len());
+        check(cx, "APLIC", madt::APLIC::len(), to_vec(&madt::APLIC::new(1, [0; 8], 2, 3, 4, 5, 6)).len());
+        check(cx, "PLIC", madt::PLIC::len(), to_vec(&madt::PLIC::new(1, [0; 8], 2, 3, 4, 5, 6)).len());
+        check(cx, "CacheNode", pptt::CacheNode::len(), to_vec(&pptt::CacheNodeBuilder::default().size(r.u32b()).to_node()).len());
+        // RQSC: instance helpers over random resource lists
+        if let Some(op @ Op::Controller { .. }) = gen_op(Kind::Rqsc, &mut r, &mut GenState::default()) {
+            let c = crate::tables::real::build_controller(&op);
+            check(cx, "QoSController", c.len(), to_vec(&c).len());
+            if let Op::Controller { res, .. } = &op {
+                for rs in res {
+                    let o = crate::tables::real::build_rqsc_resource(rs);
+                    check(cx, "ResourceStructure", o.len(), to_vec(&o).len());
+                }
+            }
+            cx.rep.distinct(&format!("{:?}", op).len());
+        }
+        let _ = rqsc::ResourceType::Cache;
+    })
+}
+
+/// C04 companion: value types that are not tables — GAS constructors, sdt::GenericAddress,
+/// the generic error status block header.
+fn value_layouts(cfg: &Cfg) -> Report {
+    use acpi_tables::{gas, hest, sdt::GenericAddress};
+    use zerocopy::IntoBytes;
+    par_cases(cfg, "layout.values", cfg.scaled(if cfg.tier == Tier::Thorough { 400_000 } else { 20_000 }), |cx| {
+        let mut r = cx.rng.clone();
+        cx.eval();
+        let cmp = |cx: &mut CaseCtx, what: &str, got: &[u8], want: &[u8], desc: String| {
+            cx.obs();
+            cx.rep.cov(&format!("value_layout:{}", what));
+            if got != want {
+                cx.violation(
+                    format!("{} is not encoded as the specification prescribes", what),
+                    obj(vec![("input", desc.into()), ("observed", crate::json::hex(got).into()), ("expected", crate::json::hex(want).into())]),
+                );
+            }
+        };
+        match cx.idx % 4 {
+            0 => {
+                let g = gen_gas(&mut r);
+                let want = crate::tables::reference::gas(&g);
+                cmp(cx, "gas::GAS::new", &to_vec(&crate::tables::real::mk_gas(&g)), &want, format!("{:?}", g));
+                cx.rep.distinct(&format!("{:?}", g));
+            }
+            1 => {
+                let (w, acc, dev, func, reg) = (r.u8b(), r.below(5) as u8, r.u8b(), r.u8b(), r.u16b());
+                let mut want = vec![0u8; 12];
+                put(&mut want, 0, 1, 2); // PCI configuration space
+                put(&mut want, 1, 1, w as u64);
+                put(&mut want, 3, 1, acc as u64);
+                // ACPI 6.5 Table 5.1: PCI config address = device in the highest used word, function, then register offset
+                put(&mut want, 4, 8, ((dev as u64) << 32) | ((func as u64) << 16) | reg as u64);
+                let o = gas::GAS::new_pci_config(w, crate::tables::real::gas_access(acc), dev, func, reg);
+                cmp(cx, "gas::GAS::new_pci_config", &to_vec(&o), &want, format!("width {} access {} dev {} fn {} reg {:#x}", w, acc, dev, func, reg));
+                cx.rep.distinct(&(w, acc, dev, func, reg));
+            }
+            2 => {
+                let a = r.u64b();
+                let io = r.bool();
+                let t = r.below(4);
+                let bytes: Vec<u8> = match (io, t) {
+                    (true, 0) => GenericAddress::io_port_address::<u8>(a as u16).as_bytes().to_vec(),
+                    (true, 1) => GenericAddress::io_port_address::<u16>(a as u16).as_bytes().to_vec(),
+                    (true, 2) => GenericAddress::io_port_address::<u32>(a as u16).as_bytes().to_vec(),
+                    (true, _) => GenericAddress::io_port_address::<u64>(a as u16).as_bytes().to_vec(),
+                    (false, 0) => GenericAddress::mmio_address::<u8>(a).as_bytes().to_vec(),
+                    (false, 1) => GenericAddress::mmio_address::<u16>(a).as_bytes().to_vec(),
+                    (false, 2) => GenericAddress::mmio_address::<u32>(a).as_bytes().to_vec(),
+                    (false, _) => GenericAddress::mmio_address::<u64>(a).as_bytes().to_vec(),
+                };
+                let mut want = vec![0u8; 12];
+                put(&mut want, 0, 1, io as u64); // 1 = system I/O, 0 = system memory
+                put(&mut want, 1, 1, 8 << t); // register bit width
+                put(&mut want, 3, 1, t + 1); // access size: byte, word, dword, qword
+                put(&mut want, 4, 8, if io { a & 0xffff } else { a });
+                cmp(cx, "sdt::GenericAddress", &bytes, &want, format!("io={} width={} addr={:#x}", io, 8 << t, a));
+                cx.rep.distinct(&(io, t, a));
+            }
+            _ => {
+                let (c, u) = (*r.pick(&[0u32, 1, 2, 3, 1000]), *r.pick(&[0u32, 1, 2, 7, u32::MAX]));
+                let sev = r.below(4) as u32;
+                let s = hest::GenericErrorStatus::new(
+                    c,
+                    u,
+                    match sev {
+                        0 => hest::ErrorSeverity::Recoverable,
+                        1 => hest::ErrorSeverity::Fatal,
+                        2 => hest::ErrorSeverity::Correctable,
+                        _ => hest::ErrorSeverity::None,
+                    },
+                );
+                let mut want = vec![0u8; 20];
+                // ACPI 6.5 Table 18.11 block status: b0 UE valid, b1 CE valid, b2 multiple UE, b3 multiple CE
+                let st = (if u == 1 { 1 } else { 0 }) | (if c == 1 { 2 } else { 0 }) | (if u > 1 { 4 } else { 0 }) | (if c > 1 { 8 } else { 0 });
+                put(&mut want, 0, 4, st);
+                put(&mut want, 16, 4, sev as u64);
+                cmp(cx, "hest::GenericErrorStatus header", &to_vec(&s), &want, format!("correctable {} uncorrectable {} severity {}", c, u, sev));
+                cx.rep.distinct(&(c, u, sev));
+            }
+        }
+    })
 }
